@@ -698,7 +698,7 @@ func clauseKey(name string) string {
 	return ""
 }
 
-var cutFamily = regexp.MustCompile(`(\.back|\.head|[.#]s)\.[A-Z][A-Za-z0-9]*$`)
+var cutFamily = regexp.MustCompile(`((\.back|\.head|[.#]s)\.[A-Z][A-Za-z0-9]*$)|(#loop\()`)
 
 var cutOrdinal = regexp.MustCompile(`([.#])s[0-9]+\.`)
 
